@@ -262,14 +262,24 @@ func (q *qSer) stmt(s ast.Stmt) string {
 			return "(asbad)"
 		}
 		var lhs []string
-		for _, l := range s.Lhs {
+		for i, l := range s.Lhs {
 			id, ok := l.(*ast.Ident)
 			if !ok {
 				return "(asbad)"
 			}
-			ty := qTyA(q.info.TypeOf(id))
+			lt := q.info.TypeOf(id)
+			if lt == nil && id.Name == "_" && s.Tok == token.ASSIGN {
+				// go/types records no type for a blank identifier on the left of `=`; the value stored has the type of
+				// the right operand (the i-th component when that is a call with several results).  The compiler as it is
+				// asks typeIsInt of the missing type and panics: the harness reports that as a compile panic (c04Spec).
+				lt = q.info.TypeOf(s.Rhs[0])
+				if tup, ok := lt.(*types.Tuple); ok && i < tup.Len() {
+					lt = tup.At(i).Type()
+				}
+			}
+			ty := qTyA(lt)
 			if s.Tok == token.DEFINE {
-				ty = qTyS(q.info.TypeOf(id))
+				ty = qTyS(lt)
 			}
 			lhs = append(lhs, fmt.Sprintf("(%d %s)", q.name(id.Name), ty))
 		}
